@@ -408,9 +408,11 @@ fn record_random(args: &Args, out: &mut Out) -> Recorder {
         let st = crate::ledger::project(&env, &w);
         let instructions = random_tx(&mut rng, &st);
         let payer = if rng.gen_bool(0.3) { Some(env.accts[rng.gen_range(0..3)].addr) } else { None };
-        let res = catch(|| {
+        // building the manifest is the harness's own job (a panic here ends the recording: tool error); only the
+        // execution by the engine runs under `catch`
+        let m = {
             let m = build(&env, &w, &instructions, instructions.len(), false);
-            let m = match payer {
+            match payer {
                 // the fee is locked from an account's own XRD vault instead of the faucet
                 Some(p) => {
                     let mut b = ManifestBuilder::new().lock_fee(p, 500);
@@ -420,7 +422,9 @@ fn record_random(args: &Args, out: &mut Out) -> Recorder {
                     b.build_no_validate()
                 }
                 None => m,
-            };
+            }
+        };
+        let res = catch(|| {
             let proofs = env.proofs();
             env.ledger.execute_manifest(m, proofs)
         });
